@@ -52,6 +52,7 @@ def cfg():
 
 
 OBJ = lambda props, **kw: {"type": "object", "properties": props, **kw}
+FLOAT_ENUM = {"type": "number", "enum": [0.5, 1.5]}
 
 
 # ====================================================================== documents with seeded breakage
@@ -111,7 +112,8 @@ def gen_census_doc(rng: random.Random, size=None):
     # breakage
     for nm in rng.sample(names, rng.randint(0, max(1, n // 3))):
         body = S[nm] if "properties" in S[nm] else S[nm]["allOf"][1]
-        body["properties"]["broken"] = rng.choice([{"type": "array"}, {"$ref": REF + "Nowhere"}, {"enum": [1, "x"]}, {"type": "integer", "default": "no"}])
+        body["properties"]["broken"] = rng.choice([{"type": "array"}, {"$ref": REF + "Nowhere"}, {"enum": [1, "x"]}, {"type": "integer", "default": "no"},
+                                                   FLOAT_ENUM, {"enum": [True, False]}])      # the last two: errors with a header and no detail
         notes.append(("broken", nm))
     extras = rng.sample(["enum", "refnode", "badarray", "classdup", "moddup", "arr", "wrap", "enum_vs_model", "model_vs_enum", "enum_vs_enum"], rng.randint(1, 5))
     # class-name coincidences between an ENUM and a MODEL (both directions; the component is shuffled before or after its twin's owner)
@@ -197,7 +199,7 @@ def gen_census_doc(rng: random.Random, size=None):
         if "{pid}" in path:
             params.append({"name": "pid", "in": "path", "required": rng.random() < 0.9, "schema": {"type": "integer"}})
         if rng.random() < 0.4:
-            params.append({"name": "q", "in": "query", "schema": rng.choice([{"type": "string"}, {"type": "array"}, {"$ref": REF + rng.choice(list(S))}])})
+            params.append({"name": "q", "in": "query", "schema": rng.choice([{"type": "string"}, {"type": "array"}, {"$ref": REF + rng.choice(list(S))}, FLOAT_ENUM])})
         if rng.random() < 0.1:
             params += [{"name": "dup", "in": "query", "schema": {"type": "string"}}, {"name": "dup", "in": "query", "schema": {"type": "string"}}]
         if params:
@@ -209,7 +211,8 @@ def gen_census_doc(rng: random.Random, size=None):
             for ct in cts:
                 # an inline object only when it is the only media type: inline class names of several bodies of one operation can
                 # coincide (json / +json), which is a naming matter outside this property's oracle for single pieces
-                sch = rng.choice([{"$ref": REF + rng.choice(list(S))}, OBJ({"v": {"type": "string"}}) if len(cts) == 1 else {"type": "string"}, {"type": "array"}, None])
+                sch = rng.choice([{"$ref": REF + rng.choice(list(S))}, OBJ({"v": {"type": "string"}}) if len(cts) == 1 else {"type": "string"}, {"type": "array"}, None,
+                                  FLOAT_ENUM, {"type": "array", "items": FLOAT_ENUM}])
                 if ct == "application/octet-stream":
                     sch = {"type": "string", "format": "binary"}
                 content[ct] = {"schema": sch} if sch is not None else {}
@@ -220,7 +223,7 @@ def gen_census_doc(rng: random.Random, size=None):
             if rr < 0.5:
                 op["responses"][c] = {"description": "d", "content": {"application/json": {"schema": {"$ref": REF + rng.choice(list(S))}}}}
             elif rr < 0.65:
-                op["responses"][c] = {"description": "d", "content": {"application/json": {"schema": {"type": "array"}}}}
+                op["responses"][c] = {"description": "d", "content": {"application/json": {"schema": rng.choice([{"type": "array"}, FLOAT_ENUM])}}}
             elif rr < 0.75:
                 op["responses"][c] = {"description": "d", "content": {"application/xml": {"schema": {"type": "string"}}}}
             else:
@@ -678,7 +681,10 @@ def run(run, tier, replay=None):
     terms, meta = [], []
     for r in results:
         if r.get("raised"):
-            # an exception is C06's business unless it is not the known duplicate-enum crash
+            # nothing may abort the whole generation: every piece of these documents is either generated or dropped with a diagnostic
+            # (the documents contain no duplicate enum keys, the one recorded crash: enum_dup_crash, C06/C14)
+            run.note_case({"doc": r["label"]}, nontrivial=True, kind="census:raised")
+            run.violation("oracle", {"label": r["label"], "problem": {"kind": "raises", "what": r["raised"]}, "doc": r["doc"]})
             continue
         nd = r["stats"].get("diags", 0)
         run.note_case({"doc": r["label"], "schemas": r["stats"].get("schemas"), "ops": r["stats"].get("ops")}, nontrivial=nd > 0,
